@@ -5,7 +5,7 @@ cd /verif
 fail=0
 for d in /verif/seeded/${1:-*}; do
   [ -f "$d/meta.json" ] || continue
-  P=$(python3 -c "import json;print(json.load(open('$d/meta.json'))['property'])")
+  P=$(python3 -c "import json;m=json.load(open('$d/meta.json'));print(m.get('check_with') or m['property'])")
   line=$(tools/seedtest.sh "$d" "$P" 2>&1 | grep '^SEED')
   echo "$line"
   case "$line" in *check_exit=1*) ;; *) fail=1;; esac
